@@ -41,6 +41,7 @@ def check(model, tier):
     _merge.r05_3_merged_constructors(ctx, rule="R11.7")
     _merge.r05_4_then(ctx, rule="R11.8")
     sqlplace.r_inner_calculation_name(ctx, "R11.9")
+    sqlplace.r_order_survives(ctx, "R11.12")
     from ..rules import mergeeval as _mergeeval
 
     _mergeeval.r05_9_merge_semantics(ctx, rule="R11.11")  # the Select's sort and slice slots are composed with Sort.then / Slice.then
